@@ -125,11 +125,12 @@ func (s *Server) Stop(bound time.Duration) bool {
 
 // Out is a concurrent ND-JSON writer; every record gets a process-wide sequence number
 type Out struct {
-	mu  sync.Mutex
-	w   *bufio.Writer
-	f   *os.File
-	seq int64
-	N   int64
+	mu   sync.Mutex
+	w    *bufio.Writer
+	f    *os.File
+	seq  int64
+	N    int64
+	sync bool
 }
 
 func NewOut(path string) (*Out, error) {
@@ -151,6 +152,9 @@ func (o *Out) Write(v interface{}) {
 	o.mu.Lock()
 	o.w.Write(b)
 	o.w.WriteByte('\n')
+	if o.sync {
+		o.w.Flush()
+	}
 	o.N++
 	o.mu.Unlock()
 }
@@ -229,3 +233,12 @@ func (b *Budget) Spent() { atomic.AddInt64(&b.left, -1) }
 // Exhausted: so many waits timed out that going on only costs time (the tree is broken and the
 // anomalies seen so far are reported); the remaining cases are skipped.
 func (b *Budget) Exhausted() bool { return atomic.LoadInt64(&b.left) < -100 }
+
+// NewOutSync is an Out that flushes after every record (the process may crash at any time)
+func NewOutSync(path string) (*Out, error) {
+	f, err := os.Create(path)
+	if err != nil {
+		return nil, err
+	}
+	return &Out{f: f, w: bufio.NewWriterSize(f, 0), sync: true}, nil
+}
